@@ -14,7 +14,7 @@ import (
 func init() {
 	register("C17", PropCheck{
 		Title:      "Rejected input has no effect on the session",
-		Explain:    "Decided on every path of DefaultEngine.Exec: (R1) acceptance dominates every effect - each call other than building the context, logging, formatting and the validators themselves, and each store to an object field, is only reachable after BOTH refusal points were passed on their success side: the format test (vm.ValidInput(input) without error, or the empty-input edge) and the length test (a comparison of the byte length len(input) with the input limit, or State.SetInput(input) without error) - applied in Exec itself or in a value-building helper called with the parameter that enforces the test on every one of its own success returns; in particular the pre-VM hook, the persister and the VM are not reached with refused bytes, and the refused bytes flow nowhere but into the validators and log calls; (R2) the validators are applied to the Exec parameter itself; (R4) in Flush the render and every client write are behind the execd==true edge and the refusal returns ErrFlushNoExec; (R5) Finish saves only behind the initd==true edge, and initd is only set by the initialisation that Exec runs after acceptance - so a refused request cannot cause a save; (R6) the refusal set itself: the constant pattern of the regular expression vm.ValidInput applies first is parsed with regexp/syntax (nothing is executed) and must be anchored at the beginning and at the end of the text with a wildcard that excludes line breaks (added after seeded change C17-E, which dropped the anchored tail); (R7) the validator is a function of its argument alone: neither vm.ValidInput nor the functions of package vm it calls store to package-level variables or maps (added after seeded change C17-G, a memo of the last accepted input that aliased the caller's buffer). (R8) every return of engine.Loop passes Engine.Finish or the registration of its deferred call (added after seeded change C17-J).",
+		Explain:    "Decided on every path of DefaultEngine.Exec: (R1) acceptance dominates every effect - each call other than building the context, logging, formatting and the validators themselves, and each store to an object field, is only reachable after BOTH refusal points were passed on their success side: the format test (vm.ValidInput(input) without error, or the empty-input edge) and the length test (a comparison of the byte length len(input) with the input limit, or State.SetInput(input) without error) - applied in Exec itself or in a value-building helper called with the parameter that enforces the test on every one of its own success returns; in particular the pre-VM hook, the persister and the VM are not reached with refused bytes, and the refused bytes flow nowhere but into the validators and log calls; (R2) the validators are applied to the Exec parameter itself; (R4) in Flush the render and every client write are behind the execd==true edge and the refusal returns ErrFlushNoExec; (R5) Finish saves only behind the initd==true edge, and initd is only set by the initialisation that Exec runs after acceptance - so a refused request cannot cause a save; (R6) the refusal set itself: the constant pattern of the regular expression vm.ValidInput applies first is parsed with regexp/syntax (nothing is executed) and must be anchored at the beginning and at the end of the text with a wildcard that excludes line breaks (added after seeded change C17-E, which dropped the anchored tail); (R7) the validator is a function of its argument alone: neither vm.ValidInput nor the functions of package vm it calls store to package-level variables or maps (added after seeded change C17-G, a memo of the last accepted input that aliased the caller's buffer). (R8) every return of engine.Loop passes Engine.Finish or the registration of its deferred call (added after seeded change C17-J). (R9) where Loop reads with bufio's ReadLine the continuation flag is used; (R10) the argument of every pattern match in ValidInput (and the vm functions it calls) is the parameter itself, not a trimmed or normalised copy (added after seeded changes C17-K and C17-L).",
 		NotDecided: "equality of the two transcripts (history with and without the refused input) as such; non-idempotent re-initialisation after failures that are not input refusals (a failing `first` function).",
 		Run:        runC17,
 	})
